@@ -32,12 +32,19 @@
 //!        ops  add {h} | get {h} | drop {g} | record {h, ok} | remove {h} | check {fail:[h..]} | advance {ms} | shutdown
 //!                   -> res {kind:"Ok"[,g]} | {kind:"Err",err}; obs {active, mactive, srv:{h:[state,req,succ,fail]}, m:[succ,fail,act,rec,rem]}
 //!
+//!  cdn   cfg {servers:[{h,prio,beh}..]}   one loopback HTTP/1.1 mock per server (real sockets, real clock), beh one of
+//!            ok206 (honours Range) | ok200 (ignores Range, whole resource) | h404 | h429 | h500 | h503 | close (no answer)
+//!        ops  get {range:[s,e]|[]}                  ReqwestHttpClient::get_cdn_content over the servers
+//!                   -> res {kind:"Ok",body:hex} | {kind:"Err",err[,server]}; obs {contacted:[h..] in order of arrival, hdr_ok}
+//!        The resource is the 32 bytes 00 01 .. 1f.
+//!
 //! Events (judged by spec/trace/T_Streaming.tla; nothing is decided here):
 //!   {"op":"new","fam":F,"cfg":{..}} then one event per operation {"op":..,args..,"seq":n,"res":..,"obs":..}.
 use async_trait::async_trait;
 use bytes::Bytes;
 use cascette_protocol::cdn::streaming::pool::ConnectionGuard;
 use cascette_protocol::cdn::streaming::{
+    ContentType, ReqwestHttpClient,
     AdvancedRangeCoalescer, BandwidthMonitor, CdnServer, ConnectionPool, ConnectionPoolConfig, ConnectionState,
     ErrorRecoverySystem, FailoverManager, HttpClient, HttpRange, NetworkCondition, RangeCoalescer, RetryConfig,
     RetryManager, ServerHealth, StreamingConfig, StreamingError, StreamingMetrics,
@@ -627,6 +634,138 @@ fn run_pool(p: &Value, em: &Emit) {
 }
 
 // ------------------------------------------------------------------------------------------------
+// cdn: ReqwestHttpClient::get_cdn_content against loopback mocks
+// ------------------------------------------------------------------------------------------------
+const RES_LEN: usize = 32;
+struct Hit {
+    srv: String,
+    range: Option<(u64, u64)>,
+    path_ok: bool,
+}
+fn serve_one(mut c: std::net::TcpStream, name: &str, beh: &str, hits: &Mutex<Vec<Hit>>) {
+    use std::io::{Read, Write};
+    let _ = c.set_read_timeout(Some(Duration::from_secs(5)));
+    let mut buf = Vec::new();
+    let mut tmp = [0u8; 1024];
+    while !buf.windows(4).any(|w| w == b"\r\n\r\n") {
+        match c.read(&mut tmp) {
+            Ok(0) | Err(_) => return,
+            Ok(n) => buf.extend_from_slice(&tmp[..n]),
+        }
+        if buf.len() > 65536 {
+            return;
+        }
+    }
+    let text = String::from_utf8_lossy(&buf).to_string();
+    let mut lines = text.split("\r\n");
+    let reqline = lines.next().unwrap_or("");
+    let mut range = None;
+    for l in lines {
+        if let Some((k, v)) = l.split_once(':')
+            && k.trim().eq_ignore_ascii_case("range")
+            && let Some(spec) = v.trim().strip_prefix("bytes=")
+            && let Some((a, b)) = spec.split_once('-')
+            && let (Ok(a), Ok(b)) = (a.trim().parse::<u64>(), b.trim().parse::<u64>())
+        {
+            range = Some((a, b));
+        }
+    }
+    hits.lock().expect("hits").push(Hit {
+        srv: name.to_string(),
+        range,
+        path_ok: reqline.starts_with("GET /tpr/wow/data/01/23/0123456789abcdef0123456789abcdef "),
+    });
+    let res: Vec<u8> = (0..RES_LEN as u8).collect();
+    let (code, body): (u16, Vec<u8>) = match beh {
+        "ok206" => match range {
+            Some((a, b)) if (a as usize) < RES_LEN && a <= b => (206, res[a as usize..=(b as usize).min(RES_LEN - 1)].to_vec()),
+            Some(_) => (416, Vec::new()),
+            None => (200, res),
+        },
+        "ok200" => (200, res),
+        "h404" => (404, b"nf".to_vec()),
+        "h429" => (429, b"slow".to_vec()),
+        "h500" => (500, b"err".to_vec()),
+        "h503" => (503, b"busy".to_vec()),
+        "close" => return,
+        other => panic!("driver: cdn behaviour {other}"),
+    };
+    let mut head = format!("HTTP/1.1 {code} X\r\nContent-Length: {}\r\nConnection: close\r\n", body.len());
+    if code == 206 && let Some((a, _)) = range {
+        head += &format!("Content-Range: bytes {}-{}/{}\r\n", a, a as usize + body.len() - 1, RES_LEN);
+    }
+    head += "\r\n";
+    let _ = c.write_all(head.as_bytes());
+    let _ = c.write_all(&body);
+    let _ = c.flush();
+}
+fn spawn_mock(name: String, beh: String, hits: Arc<Mutex<Vec<Hit>>>, stop: Arc<AtomicBool>) -> u16 {
+    let l = std::net::TcpListener::bind("127.0.0.1:0").expect("bind mock");
+    let port = l.local_addr().expect("addr").port();
+    l.set_nonblocking(true).expect("nonblocking");
+    std::thread::spawn(move || {
+        while !stop.load(Ordering::SeqCst) {
+            match l.accept() {
+                Ok((c, _)) => {
+                    let _ = c.set_nonblocking(false);
+                    serve_one(c, &name, &beh, &hits);
+                }
+                Err(_) => std::thread::sleep(Duration::from_millis(1)),
+            }
+        }
+    });
+    port
+}
+fn run_cdn(p: &Value, em: &Emit) {
+    let cfg = &p["cfg"];
+    em.ev(json!({"op": "new", "fam": "cdn", "cfg": cfg}));
+    let hits: Arc<Mutex<Vec<Hit>>> = Arc::new(Mutex::new(Vec::new()));
+    let stop = Arc::new(AtomicBool::new(false));
+    let mut servers = Vec::new();
+    for sv in cfg["servers"].as_array().expect("servers") {
+        let port = spawn_mock(s(sv, "h").to_string(), s(sv, "beh").to_string(), hits.clone(), stop.clone());
+        servers.push(CdnServer::new(format!("127.0.0.1:{port}"), false, u(sv, "prio") as u32));
+    }
+    let names: BTreeMap<String, String> = servers
+        .iter()
+        .zip(cfg["servers"].as_array().expect("servers"))
+        .map(|(c, v)| (c.host.clone(), s(v, "h").to_string()))
+        .collect();
+    let sc = StreamingConfig { request_timeout: Duration::from_secs(10), connect_timeout: Duration::from_secs(5), ..StreamingConfig::default() };
+    let rt = rt();
+    let mut client = ReqwestHttpClient::with_cdn_servers(sc, servers).expect("client");
+    client.cache_cdn_path("wow".to_string(), "tpr/wow".to_string());
+    let mut seq = 0u64;
+    for op in p["ops"].as_array().expect("ops") {
+        em.begin(op);
+        seq += 1;
+        let mut ev = op.as_object().expect("op").clone();
+        ev.insert("seq".into(), json!(seq));
+        let range = op["range"].as_array().filter(|r| r.len() == 2).map(|r| HttpRange { start: r[0].as_u64().expect("s"), end: r[1].as_u64().expect("e") });
+        hits.lock().expect("hits").clear();
+        let r = guarded(|| rt.block_on(client.get_cdn_content("wow", ContentType::Data, "0123456789abcdef0123456789abcdef", range, false)));
+        ev.insert("res".into(), match r {
+            Ok(Ok(b)) => json!({"kind": "Ok", "body": hex(&b[..b.len().min(64)]), "len": b.len()}),
+            Ok(Err(e)) => {
+                let server = match &e {
+                    StreamingError::CdnFailover { server, .. } => names.get(server).cloned().unwrap_or_else(|| "?".into()),
+                    _ => "-".into(),
+                };
+                json!({"kind": "Err", "err": err_kind(&e).0, "server": server})
+            }
+            Err(m) => json!({"kind": "panic", "msg": m.chars().take(200).collect::<String>()}),
+        });
+        let want = range.map(|r| (r.start, r.end));
+        let h = hits.lock().expect("hits");
+        ev.insert("obs".into(), json!({"contacted": h.iter().map(|x| x.srv.clone()).collect::<Vec<_>>(),
+                                        "hdr_ok": h.iter().all(|x| x.range == want && x.path_ok)}));
+        drop(h);
+        em.ev(Value::Object(ev));
+    }
+    stop.store(true, Ordering::SeqCst);
+}
+
+// ------------------------------------------------------------------------------------------------
 // seeded random programs (large numbers, long histories)
 // ------------------------------------------------------------------------------------------------
 fn rand_range(r: &mut Rng, hull: u64) -> Value {
@@ -689,6 +828,11 @@ fn random_program(r: &mut Rng) -> Value {
 
 fn main() {
     quiet_panics();
+    // the mocks are on loopback: no proxy may be consulted
+    for v in ["http_proxy", "https_proxy", "HTTP_PROXY", "HTTPS_PROXY", "all_proxy", "ALL_PROXY"] {
+        // SAFETY: single-threaded at this point
+        unsafe { std::env::remove_var(v) };
+    }
     let args: Vec<String> = std::env::args().collect();
     let mut out = Out::from_arg(arg(&args, "--out").as_ref());
     let programs = if let Some(p) = arg(&args, "--programs") {
@@ -713,6 +857,7 @@ fn main() {
         "fo" => run_fo(p, em),
         "rec" => run_rec(p, em),
         "pool" => run_pool(p, em),
+        "cdn" => run_cdn(p, em),
         other => panic!("driver: unknown family {other}"),
     });
     out.flush();
